@@ -188,6 +188,9 @@ def is_dead_position(src, lineno):
 
 
 CURATED = [
+    ("lambda-signatures", "f = lambda a, b=2, *c, d, e=5, **k: (a, b, c, d, e, sorted(k))\ng = lambda *, name, sep: name + sep\nh = lambda *a, k: (a, k)\ni = lambda a, /, b, *, c: (a, b, c)\n"
+     "print(f(1, d=4), g(name='n', sep='-'), h(1, k=2), i(1, 2, c=3), (lambda *, only: only)(only=1))\n"),
+    ("aug-subscript-index-rebinds-object", "a = [1, 2]\nb = [10, 20]\ndef swap():\n    global a\n    a = b\n    return 0\na[swap()] += 5\nc = [1, 2]\nd = c\nc[(c := [7, 8])[0] - 7] += 1\nprint(a, b, c, d)\n"),
     ("genexp-argument-with-keywords", "w = ['bb', 'a', 'ccc']\nprint(sorted((x for x in w), key=len), max((len(x) for x in w), default=0), sum((1 for _ in w), 10))\n"),
     # one class per shape: the names a class body's lambdas read as globals are collected per class
     ("class-body-nested-lambdas-read-global", "x = 'G'\nclass K1:\n    x = 'M'\n    g = (lambda: (lambda: x)())()\nclass K2:\n    x = 'M'\n    a = lambda self, w: (lambda h: (w, h, x))\n"
